@@ -53,6 +53,11 @@ SCENARIOS = {
     'flapping_two': dict(callers=[[('comm', 1), ('sleep', 3.2), ('comm', 2), ('sleep', 1), ('comm', 3), ('sleep', 3), ('comm', 4)],
                                   [('sleep', 3.4), ('comm', 5), ('sleep', 1), ('comm', 6), ('sleep', 0.4), ('comm', 7)]],
                          behaviour={1: ('close',), 5: ('close',)}, callbacks=2, horizon=40),
+    'close_race': dict(callers=[[('sleep', 4), ('comm', 1), ('sleep', 2), ('comm', 3), ('sleep', 4), ('comm', 5)],
+                                [('sleep', 4), ('comm', 2), ('sleep', 2), ('comm', 4), ('sleep', 4), ('comm', 6)]],
+                       behaviour={1: ('close',)}, callbacks=1, horizon=40),
+    'close_race_poller': dict(callers=[[('sleep', 3), ('comm', 1), ('sleep', 4), ('comm', 3), ('sleep', 4), ('comm', 5)]],
+                              behaviour={1: ('close',)}, callbacks=2, poller=True, poll_until=14, horizon=40),
     'drop_inside': dict(callers=[[M((1, 0.5), (2, 0.5), (3, 0))], [('comm', 4), ('sleep', 4), ('comm', 5)]],
                         drop_at=0.7, refuse=1, callbacks=2, horizon=30),
     'wait_before': dict(callers=[[('comm', 1), ('comm', 2)], [('comm', 3)]], wait_before=0.3, behaviour={2: ('late', 2.2)}),
@@ -66,7 +71,10 @@ def alpha(r, sc):
         t = int(round((e['vt'] - T0) * 10))
         ev = e['ev']
         if ev == 'call':
-            tr.append({'ev': 'call', 'i': e['i'], 'kind': e['kind'], 'gids': e['gids'], 'delays': e['delays'], 't': t})
+            beh = sc.get('behaviour', {})
+            tr.append({'ev': 'call', 'i': e['i'], 'kind': e['kind'], 'gids': e['gids'], 'delays': e['delays'], 't': t,
+                       'faulty': any(beh.get(g, ('normal',))[0] not in ('normal', 'garbage_after') for g in e['gids'])
+                       or 'drop_at' in sc or any(b[0] == 'trickle' for b in beh.values())})   # (a trickling device is busy)
         elif ev == 'dev_recv':
             tr.append({'ev': 'drecv', 'g': e['gid'], 't': t})
         elif ev == 'host_send':
